@@ -490,7 +490,14 @@ def transaction(draw):
         if draw(st.integers(0, 3)) == 0:
             # an application-extended query with an enumerated answer (QUERY ASSIGNED COLOUR), any answer byte
             return [(0, "forward", 16, 0xC108), (small, "forward", 16, 0x03FC), (2 * small, "backward", 8, draw(st.integers(0, 255)))]
-        return [(0, "forward", 16, 0xC100 | dt), (small, "forward", 16, ext)]
+        mid = draw(st.sampled_from(["none", "none", "backward", "error", "damaged"]))
+        if mid == "none":
+            return [(0, "forward", 16, 0xC100 | dt), (small, "forward", 16, ext)]
+        # something that is no forward frame shows up between the announcement and the extended opcode (a stray
+        # backward frame, a collision, a gateway packet damaged on the serial line): the announcement still stands
+        between = {"backward": (small, "backward", 8, draw(st.integers(0, 255))), "error": (small, "error", 8, 0),
+                   "damaged": (small, "damaged", 0, draw(st.integers(1, 255)))}[mid]
+        return [(0, "forward", 16, 0xC100 | dt), between, (2 * small, "forward", 16, ext)]
     if k == "dt-alone":
         return [(0, "forward", 16, 0xC100 | draw(st.sampled_from([1, 6, 8])))]
     if k == "f24":
@@ -519,7 +526,9 @@ def case_strategy(draw, driver=None):
             tr = draw(transaction())
             as_own = drv == "tridonic" and draw(st.integers(0, 4)) == 0
             if drv in ("luba", "sci"):
-                tr = [x for x in tr if x[1] in ("forward", "backward")]
+                tr = [x for x in tr if x[1] in ("forward", "backward", "damaged")]
+            else:
+                tr = [x for x in tr if x[1] != "damaged"]
             own_one = draw(st.integers(0, len(tr) - 1)) if (drv == "tridonic" and len(tr) >= 2 and draw(st.integers(0, 5)) == 0) else None
             for j_, (dt_, kind, bits, value) in enumerate(tr):
                 d = {"t": round(t + dt_, 4), "kind": kind if kind != "busok" else "busok", "bits": bits, "value": value}
@@ -532,7 +541,7 @@ def case_strategy(draw, driver=None):
                     inject.append(d)
                 elif kind == "forward":
                     inject.append(d)
-                elif kind == "backward":
+                elif kind in ("backward", "damaged"):
                     inject.append(d)
             if drv == "tridonic" and len(tr) == 2 and tr[1][0] <= 0.1 and draw(st.integers(0, 5)) == 0:
                 # the application keeps the loop busy across the watcher's deadline: the second report became readable
@@ -595,7 +604,7 @@ def case_strategy(draw, driver=None):
             if j == 0 or draw(st.booleans()):
                 inject.append({"t": round(t, 4), "kind": "forward", "bits": 16, "value": ext})    # no announcement
             else:
-                tr = draw(transaction())
+                tr = [x for x in draw(transaction()) if x[1] != "damaged"]
                 for (d_, kind, bits, value) in tr:
                     inject.append({"t": round(t + d_, 4), "kind": kind, "bits": bits, "value": value})
                 t += max([x[0] for x in tr] + [0])
